@@ -1,4 +1,5 @@
 import GoImap.Lemmas.FramingBridge
+import GoImap.Lemmas.FramingReply
 import GoImap.Lemmas.FramingSpecLemmas
 /-
   What the server does on one command line `t CRLF rest` (no CR/LF inside `t`): the primitives of
@@ -435,5 +436,76 @@ theorem cmdHeader_crlf {s : S} {tn s1} (h : cmdHeader s = (some tn, s1)) (hl : s
                   obtain ⟨c6, t6, ht6, a6⟩ := expectSP_onLine h6 l4 t4 rest hi4 ht4'
                   exact key s6 _ _ (by rw [a6.lit, l4]) h7
           · cases h; exact c4
+
+/-- An unknown command on the line `l` CRLF: the server consumes exactly `l` CRLF as command text,
+    writes one tagged reply (BAD) carrying the line's leading atom, and goes on (or closes, before
+    authentication / when the line ends in a non-synchronising literal header) with the unread
+    input at `rest`. -/
+theorem unknown_command_line (cfg : Cfg) (s0 : S) (l rest : Bytes) (hi : s0.inp = l ++ 13 :: 10 :: rest)
+    (hl : noEol l) (tag name : Bytes) (s2 : S) (hh : cmdHeader s0.reset = (some (tag, name), s2))
+    (hu : handlerOf cfg name = .unknown) (hfix : cfg.fx.append = true) :
+    ∃ s1, readCommand cfg s0 = (true, s1) ∧ s1.inp = rest ∧ s1.pos = s0.pos + l.length + 2 ∧
+      s1.roles = List.replicate (l.length + 2) Role.text ++ s0.roles ∧
+      tag = l.takeWhile isAtomChar ∧ tag ≠ [] ∧
+      (∃ new, s1.evs = new ++ s0.evs ∧ new.filter isTagged = [Event.tagged tag .bad] ∧
+        ∀ p, Event.cont p ∉ new) := by
+  have hlr : s0.reset.lit = none := rfl
+  have hir : s0.reset.inp = l ++ 13 :: 10 :: rest := hi
+  obtain ⟨c, t', hct, adv⟩ := cmdHeader_onLine hh hlr l rest hir hl
+  have hcr := cmdHeader_crlf hh hlr l rest hir hl
+  obtain ⟨htag, htne⟩ := cmdHeader_tag hh
+  have hi2 : s2.inp = t' ++ 13 :: 10 :: rest := by
+    have := adv.inp; rw [hir, hct, List.append_assoc] at this
+    exact (List.append_cancel_left this).symm
+  have ht' : noEol t' := (noEol_append (hct ▸ hl)).2
+  -- the state the handler leaves: only the ghost event and possibly the connection state changed
+  have hrun : ∃ bu s3, runHandler name (handlerOf cfg name) s2 = (bu, some Err.bad, s3) ∧ s3.inp = s2.inp ∧
+      s3.pos = s2.pos ∧ s3.roles = s2.roles ∧ s3.lit = s2.lit ∧ s3.crlf = s2.crlf ∧ s3.tail = s2.tail ∧
+      s3.evs = Event.dispatch name :: s2.evs ∧ s3.mute = s2.mute := by
+    rw [hu]
+    unfold runHandler
+    dsimp only
+    split
+    · exact ⟨true, _, rfl, rfl, rfl, rfl, rfl, rfl, rfl, rfl, rfl⟩
+    · exact ⟨false, _, rfl, rfl, rfl, rfl, rfl, rfl, rfl, rfl, rfl⟩
+  obtain ⟨bu, s3, hr, i3, p3, r3, l3, c3, t3, e3, m3⟩ := hrun
+  have hd := discardLine_line cfg.fx s3 t' rest (by rw [l3, adv.lit]; rfl) (by rw [c3, hcr]) (by rw [i3, hi2]) ht'
+  obtain ⟨di, dp, dr, _, _, _, de, dm⟩ := hd
+  refine ⟨finishCommand cfg tag bu (some Err.bad) s3, ?_, ?_, ?_, ?_, ?_, htne, ?_⟩
+  · unfold readCommand
+    rw [hh]
+    dsimp only
+    rw [hu] at hr ⊢
+    dsimp only
+    rw [hr]
+    dsimp only
+    simp [e3]
+  · unfold finishCommand; dsimp only; split_ifs <;> simp [S.emit, di]
+  · have : (s3.discardLine cfg.fx).pos = s0.pos + l.length + 2 := by
+      rw [dp, p3, adv.pos, hct, List.length_append]; show s0.pos + c.length + t'.length + 2 = _; omega
+    unfold finishCommand; dsimp only; split_ifs <;> simp [S.emit, this]
+  · have : (s3.discardLine cfg.fx).roles = List.replicate (l.length + 2) Role.text ++ s0.roles := by
+      rw [dr, r3, adv.roles, hct, List.length_append, ← List.append_assoc, List.replicate_append_replicate]
+      show List.replicate (t'.length + 2 + c.length) Role.text ++ s0.roles = _
+      congr 2; omega
+    unfold finishCommand; dsimp only; split_ifs <;> simp [S.emit, this]
+  · rw [htag, hir]
+    exact takeWhile_line isAtomChar (by decide) l rest
+  · have hev : (s3.discardLine cfg.fx).evs = Event.dispatch name :: s0.evs := by
+      rw [de, e3, adv.evs]; rfl
+    obtain ⟨byes, hfin, hb⟩ := finishCommand_events cfg hfix tag bu (some Err.bad) s3
+    refine ⟨byes ++ [Event.tagged tag (replyCls (some Err.bad))] ++ [Event.dispatch name], ?_, ?_, ?_⟩
+    · rw [hfin, hev]; simp
+    · have hbf : byes.filter isTagged = [] := by
+        rw [List.filter_eq_nil_iff]
+        intro x hx; rw [hb x hx]; simp [isTagged]
+      simp only [List.filter_append, hbf, List.nil_append, replyCls, Err.cls]
+      rfl
+    · intro p hp
+      simp only [List.mem_append, List.mem_singleton, List.mem_cons, List.mem_nil_iff, or_false] at hp
+      rcases hp with (hp | hp) | hp
+      · have := hb _ hp; cases this
+      · cases hp
+      · cases hp
 
 end GoImap.Framing
